@@ -237,26 +237,65 @@ func (g *Gen) lockOp(addr ssa.Value, read bool, acquire bool, st State, reach st
 	hso := &Sort{K: KRaw, Name: "(Array Int Int)"}
 	held := g.stGet(st, "L.held", hso)
 	cur := app("select", held, owner)
+	selfT := T{S: owner, So: SRef, GoT: types.NewPointer(ownerT)}
 	if acquire {
-		g.safety("lock", "lock is not already held by this thread (self-deadlock)", in.Pos(), reach, app("=", cur, "0"))
 		mode := "2"
 		if read {
 			mode = "1"
 		}
 		g.stSet(st, "L.held", hso, app("store", held, owner, mode))
 		if mon != nil {
-			// other threads may have changed the guarded fields: havoc them, assume the invariant
+			// other threads may have changed the guarded state: havoc it, assume the invariant
 			for _, f := range mon.Fields {
+				elems := strings.HasSuffix(f, "[]")
+				f = strings.TrimSuffix(f, "[]")
 				lv := g.fieldLV(ownerT, f, owner)
+				if lv.kind == lvBad {
+					g.errorf("monitor %s: no field %s", mon.Type, f)
+					continue
+				}
+				if elems {
+					// the elements of the slice stored in the field
+					cur := g.lvLoad(lv, st)
+					el, elT := g.elemOf(lv.goT)
+					if el != nil {
+						hn := g.elemHeapName(elT)
+						ehso := g.elemHeapSort(el)
+						h := g.stGet(st, hn, ehso)
+						fresh := g.fresh("mon."+f+".elems", &Sort{K: KRaw, Name: "(Array Int " + el.Name + ")"})
+						g.recordWrite(hn, nil)
+						g.stSet(st, hn, ehso, app("store", h, app("s_obj", cur), fresh))
+					}
+					continue
+				}
 				fresh := g.fresh("mon."+f, lv.so)
 				g.lvStore(lv, st, fresh)
+				g.interfered[lv.heap] = true
 				g.assumeTypeInv(T{S: fresh, So: lv.so, GoT: lv.goT}, st)
 			}
 			for _, cl := range mon.Inv {
-				env := g.envAt(st, st, g.prog.typesPkg(mon.Pkg), map[string]T{"self": {S: owner, So: SRef, GoT: types.NewPointer(ownerT)}})
+				env := g.envAt(st, st, g.prog.typesPkg(mon.Pkg), map[string]T{"self": selfT})
 				t := env.compileBool(cl.Expr)
 				g.reportSpecErrors(env, cl)
 				g.assume(app("=>", reach, t.S))
+			}
+		}
+		if mon != nil {
+			for _, cl := range mon.Assume {
+				env := g.envAt(st, st, g.prog.typesPkg(mon.Pkg), map[string]T{"self": selfT})
+				t := env.compileBool(cl.Expr)
+				g.reportSpecErrors(env, cl)
+				g.assume(app("=>", reach, t.S))
+			}
+		}
+		g.lockSt = st.clone()
+		if g.ct != nil {
+			for _, cl := range g.ct.LockedAssume {
+				env := g.envAt(st, g.entryState(), g.pkg, g.paramEnv)
+				t := env.compileBool(cl.Expr)
+				g.reportSpecErrors(env, cl)
+				g.assume(app("=>", reach, t.S))
+				g.assumed["assumed at lock acquisition in "+funcDisplayName(g.fn)+": "+cl.Text] = true
 			}
 		}
 		return
@@ -266,9 +305,9 @@ func (g *Gen) lockOp(addr ssa.Value, read bool, acquire bool, st State, reach st
 		want = "1"
 	}
 	g.safety("lock", "unlock of a lock held in the matching mode", in.Pos(), reach, app("=", cur, want))
-	if mon != nil {
+	if mon != nil && !read {
 		for i, cl := range mon.Inv {
-			env := g.envAt(st, st, g.prog.typesPkg(mon.Pkg), map[string]T{"self": {S: owner, So: SRef, GoT: types.NewPointer(ownerT)}})
+			env := g.envAt(st, st, g.prog.typesPkg(mon.Pkg), map[string]T{"self": selfT})
 			env.inGoal = true
 			t := env.compileBool(cl.Expr)
 			g.reportSpecErrors(env, cl)
@@ -340,6 +379,7 @@ func (g *Gen) sortSearch(v ssa.Value, c *ssa.CallCommon, in ssa.Instruction, st 
 			vs[k] = t
 		}
 		vs[fn.Params[0].Name()] = T{S: idx, So: SInt}
+		vs["result"] = T{S: "true", So: SBool}
 		var out []string
 		for _, cl := range ct.Ensures {
 			if cl.Label != "pred" {
